@@ -26,6 +26,8 @@ static long vf_steps, vf_horizon = 4000;
 static char vf_fatal_msg[256];
 static FILE *vf_out;
 static int vf_cur_more_prefix;      /* bytes of yytext carried over by yymore() */
+static int vf_act_ops, vf_act_io, vf_act_did_input, vf_act_did[16];   /* operations already performed in the current action */
+static int vf_pushed_back, vf_need_max; static long vf_n_overread_checks;
 static int vf_bufsize;               /* 0: the scanner's default buffer */
 static const char *vf_expected_fatal; /* substring of a fatal message the model predicts, or NULL */
 
@@ -84,26 +86,74 @@ static void vf_step(void)
 		vf_leave(VF_ST_HORIZON);
 }
 
+static int vf_next_chunk(size_t max_size);
 static int vf_read(char *buf, size_t max_size)
 {
-	int avail = vf_in_len - vf_in_pos, n;
+	int n;
 	vf_step();
 	vf_n_reads++;
-	n = avail;
+	n = vf_next_chunk(max_size);
+	if (n > 0) memcpy(buf, vf_in + vf_in_pos, (size_t)n);
+	vf_in_pos += n;
+	return n;
+}
+
+#if defined(VF_API_C99)
+#ifndef VF_DEFAULT_INPUT
+static int yyread(char *buf, size_t max_size, struct yyguts_t *yyscanner) { (void)yyscanner; return vf_read(buf, max_size); }
+#endif
+static void yypanic(const char *msg, struct yyguts_t *yyscanner) { (void)yyscanner; vf_fatal(msg); }
+#endif
+
+/* ---- answers for the scanner's own yyread() (VF_DEFAULT_INPUT) ---- */
+static int vf_err_flag;           /* what ferror() reports */
+static int vf_next_chunk(size_t max_size)
+{
+	int avail = vf_in_len - vf_in_pos, n = avail;
 	if ((size_t)n > max_size) n = (int)max_size;
 #ifdef VF_READ_CHOICES
 	if (n > 1) {
 		int lim = n > VF_READ_CHOICES ? VF_READ_CHOICES : n;
-		n -= vf_choose(lim, VF_K_READ);  /* 0: all that was asked for; k: k bytes fewer */
+		n -= vf_choose(lim, VF_K_READ);
 	}
 #endif
 #ifdef VF_READ_ONE
 	if (n > VF_READ_ONE) n = VF_READ_ONE;
 #endif
-	if (n > 0) memcpy(buf, vf_in + vf_in_pos, (size_t)n);
-	vf_in_pos += n;
 	return n;
 }
+#ifdef VF_DEFAULT_INPUT
+static size_t vf_fread(void *p, size_t sz, size_t n, FILE *f)
+{
+	int k;
+	(void)f; (void)sz;
+	vf_step(); vf_n_reads++;
+	k = vf_next_chunk(n);
+	if (k > 0) memcpy(p, vf_in + vf_in_pos, (size_t)k);
+	vf_in_pos += k;
+	return (size_t)k;
+}
+static int vf_getc(FILE *f)
+{
+	(void)f;
+	vf_n_reads++;
+	if (vf_in_pos >= vf_in_len) { vf_step(); return EOF; }
+	return vf_in[vf_in_pos++];
+}
+static int vf_ferror(FILE *f) { (void)f; return vf_err_flag; }
+static void vf_clearerr(FILE *f) { (void)f; vf_err_flag = 0; }
+static int vf_isatty(int fd) { (void)fd; return VF_DEFAULT_INPUT == 2; }
+static long vf_sysread(int fd, void *buf, size_t n)
+{
+	int k;
+	(void)fd;
+	vf_step(); vf_n_reads++;
+	k = vf_next_chunk(n);
+	if (k > 0) memcpy(buf, vf_in + vf_in_pos, (size_t)k);
+	vf_in_pos += k;
+	return k;
+}
+#endif
 
 static void vf_mismatch(const char *what, int obs_rule, const char *text, long leng, int start, int lineno)
 {
@@ -144,6 +194,7 @@ static void vf_act(int act, const char *text, long leng, int start, int lineno, 
 	int seg;
 	vf_step();
 	(void)atbol;
+	vf_act_ops = vf_act_io = vf_act_did_input = 0; memset(vf_act_did, 0, sizeof vf_act_did);
 	if (act > (int)YY_END_OF_BUFFER) {            /* an <<EOF>> action */
 		vf_n_eof++;
 		if (vf_R.head < vf_R.tail) {
@@ -162,6 +213,37 @@ static void vf_act(int act, const char *text, long leng, int start, int lineno, 
 	}
 #ifndef VF_NO_EDGE_COVER
 	vf_mark_edges();
+#endif
+#ifdef VF_CHECK_OVERREAD
+	{
+		/* bytes the scanner may have asked for when this action runs: from the start of the token,
+		 * up to and including the first byte that kills every longer match (or fewer, if the state
+		 * reached has no out-transition at all), or the end of input */
+		const vf_dfa *d = &vf_dfas[vf_start[vf_R.sc][vf_R.bol ? 1 : 0]];
+		const unsigned char *s = vf_R.buf + vf_R.head;
+		int avail = vf_R.tail - vf_R.head, q = 0, i, need = 0, c, any;
+		for (i = 0; i < avail; i++) {
+			any = 0;
+			for (c = 0; c < VF_NCLS; c++) if (d->tr[q * VF_NCLS + c] >= 0) { any = 1; break; }
+			if (!any && i > 0) break;
+			need = i + 1;
+			q = d->tr[q * VF_NCLS + vf_cls[s[i]]];
+			if (q < 0) break;
+		}
+		if (!vf_R.rejecting && vf_pushed_back == 0) {
+			int consumed_before = vf_in_len - avail;
+			/* look-ahead legitimately requested for an earlier token stays requested */
+			if (consumed_before + need > vf_need_max) vf_need_max = consumed_before + need;
+			if (vf_in_pos > vf_need_max) {
+				vf_mm.what = "interactive scanner asked for input beyond the end of the longest possible match";
+				vf_mm.tokidx = vf_tok_in_exec; vf_mm.exp_rule = vf_R.rule; vf_mm.obs_rule = act;
+				vf_mm.exp_len = vf_need_max; vf_mm.obs_len = vf_in_pos;
+				vf_mm.exp_sc = vf_mm.obs_sc = start; vf_mm.exp_line = vf_mm.obs_line = 0; vf_mm.exp_tl = vf_mm.obs_tl = 0;
+				vf_leave(VF_ST_MISMATCH);
+			}
+			vf_n_overread_checks++;
+		}
+	}
 #endif
 	seg = (int)leng - vf_R.more_len;
 	vf_cur_more_prefix = vf_R.more_len;
@@ -206,6 +288,17 @@ static int vf_op(long leng)
 	menu[n++] = VF_OP_NONE;
 	for (i = 1; i < VF_NOPS; i++) {
 		if (!((VF_OPMASK >> i) & 1)) continue;
+		/* combinations inside one action that the manual leaves undefined are not generated */
+		if (vf_act_ops > 0) {
+			int isio = (i == VF_OP_UNPUT || i == VF_OP_INPUT1 || i == VF_OP_INPUT2 || i == VF_OP_INPUT3);
+			if (i == VF_OP_REJECT || vf_act_did[VF_OP_REJECT]) continue;
+			if (i == VF_OP_LESS && vf_act_io) continue;   /* yyless after yyunput/yyinput in one action: not defined by the manual */
+			if (i == VF_OP_MORE && vf_act_io) continue;
+			if (isio && vf_act_did[VF_OP_MORE]) continue;
+			if (i == VF_OP_MORE && vf_act_did[VF_OP_MORE]) continue;
+			if (i == VF_OP_LESS && vf_act_did[VF_OP_MORE]) continue;
+			if (i == VF_OP_MORE && vf_act_did[VF_OP_LESS]) continue;
+		}
 		if (i == VF_OP_POP && vf_R.sp == 0) {
 #ifndef VF_ALLOW_UNDERFLOW
 			continue;
@@ -217,6 +310,10 @@ static int vf_op(long leng)
 	(void)leng;
 	c = vf_choose(n, VF_K_OP);
 	vf_n_ops[menu[c]]++;
+	vf_act_ops++;
+	vf_act_did[menu[c]] = 1;
+	if (menu[c] == VF_OP_UNPUT || menu[c] == VF_OP_INPUT1 || menu[c] == VF_OP_INPUT2 || menu[c] == VF_OP_INPUT3) vf_act_io = 1;
+	if (menu[c] == VF_OP_INPUT1 || menu[c] == VF_OP_INPUT2 || menu[c] == VF_OP_INPUT3) vf_act_did_input = 1;
 	return menu[c];
 }
 
@@ -399,15 +496,31 @@ static void vf_report(int st)
 static void vf_run_one(void)
 {
 	int st, r;
-	vf_in_pos = 0; vf_steps = 0; vf_tok_in_exec = 0; vf_nrules_in_exec = 0;
+	vf_in_pos = 0; vf_steps = 0; vf_tok_in_exec = 0; vf_nrules_in_exec = 0; vf_need_max = 0;
 	vf_cur_sc = vf_g->sc; vf_cur_more_prefix = 0; vf_expected_fatal = 0; vf_expect_underflow = 0;
 	vf_ref_init(&vf_R, vf_in, vf_in_len, vf_g->sc);
 	st = setjmp(vf_jmp);
 	if (st == 0) {
 		vf_in_yylex = 1;
 		vf_fresh();
+#ifdef VF_SOURCE_SCAN
+		/* in-memory sources: 1 yy_scan_bytes, 2 yy_scan_string (inputs without NUL), 3 yy_scan_buffer (user-owned, two NULs appended) */
+		if (VF_SOURCE_SCAN == 1) {
+			yy_scan_bytes((const char *)vf_in, vf_in_len VF_S1);
+		} else if (VF_SOURCE_SCAN == 2) {
+			static char tmp[64];
+			memcpy(tmp, vf_in, (size_t)vf_in_len); tmp[vf_in_len] = 0;
+			yy_scan_string(tmp VF_S1);
+		} else {
+			static char tmp2[64];
+			memcpy(tmp2, vf_in, (size_t)vf_in_len); tmp2[vf_in_len] = 0; tmp2[vf_in_len + 1] = 0;
+			if (!yy_scan_buffer(tmp2, (size_t)vf_in_len + 2 VF_S1)) vf_hard_error("yy_scan_buffer refused a well-formed buffer");
+		}
+		vf_in_pos = vf_in_len;
+#else
 		if (vf_bufsize > 0)
 			yy_switch_to_buffer(yy_create_buffer(stdin, vf_bufsize VF_S1) VF_S1);  /* a NULL file would mark the buffer as not refillable */
+#endif
 		do { r = VF_LEX(); } while (r != 0);
 		vf_in_yylex = 0;
 		if (vf_R.head < vf_R.tail) {
@@ -556,10 +669,10 @@ int main(int argc, char **argv)
 	fprintf(vf_out, "{\"summary\":1,\"groups\":%d,\"inputs\":%ld,\"executions\":%ld,\"tokens\":%ld,\"mismatches\":%ld,"
 		"\"fatals\":%ld,\"horizons\":%ld,\"nontrivial\":%ld,\"reads\":%ld,\"eof_actions\":%ld,"
 		"\"ref_states\":%ld,\"ref_edges\":%ld,\"ref_edges_walked\":%ld,\"choice_points\":%ld,\"overflow\":%d,"
-		"\"bound\":%d,\"expected_fatals\":%ld,\"op_effects\":%ld,\"ops\":[%ld,%ld,%ld,%ld,%ld,%ld,%ld,%ld,%ld,%ld,%ld,%ld,%ld,%ld]}\n",
+		"\"bound\":%d,\"overread_checks\":%ld,\"expected_fatals\":%ld,\"op_effects\":%ld,\"ops\":[%ld,%ld,%ld,%ld,%ld,%ld,%ld,%ld,%ld,%ld,%ld,%ld,%ld,%ld]}\n",
 		ng, vf_n_inputs, vf_executions, vf_n_tokens, vf_n_mismatch, vf_n_fatal, vf_n_horizon, vf_n_nontrivial,
 		vf_n_reads, vf_n_eof, vf_states_total, vf_edges_live, vf_edges_seen_n, vf_choice_points, vf_overflow,
-		vf_bound_done, vf_n_expected_fatal, vf_n_op_effect, vf_n_ops[0], vf_n_ops[1], vf_n_ops[2], vf_n_ops[3], vf_n_ops[4], vf_n_ops[5], vf_n_ops[6],
+		vf_bound_done, vf_n_overread_checks, vf_n_expected_fatal, vf_n_op_effect, vf_n_ops[0], vf_n_ops[1], vf_n_ops[2], vf_n_ops[3], vf_n_ops[4], vf_n_ops[5], vf_n_ops[6],
 		vf_n_ops[7], vf_n_ops[8], vf_n_ops[9], vf_n_ops[10], vf_n_ops[11], vf_n_ops[12], vf_n_ops[13]);
 	fclose(vf_out);
 	return 0;
